@@ -245,6 +245,8 @@ class GX:
                 other = []
                 for sib in g.members(sid):
                     for eid in g.nodes[sib].succs:
+                        if g.nodes[eid].kind != 'edge':
+                            continue
                         sw, v, oth = g.nodes[eid].edge
                         if v is None:
                             other.append(eid)
@@ -310,6 +312,9 @@ class GX:
         out = []
         for n in self.ext_calls(r'into_iter$'):
             out += list(g.call_args(n))
+        # `(a..b).for_each(|i| ..)` and friends: the range is the receiver of the adaptor
+        for n in self.ext_calls(r'Iterator::(for_each|try_for_each|fold|try_fold|all|any|position|find|map|rev|step_by)$'):
+            out += list(g.call_args(n))[:1]
 
         def incr(z):
             z = g.strip(z)
@@ -413,6 +418,8 @@ class GX:
         out = []
         for sib in g.members(sid):
             for eid in g.nodes[sib].succs:
+                if g.nodes[eid].kind != 'edge':
+                    continue   # a test resolved by path splitting: no edge is "taken"
                 sw, v, oth = g.nodes[eid].edge
                 if want == 'zero' and v is not None and str(v) == '0':
                     out.append(eid)
